@@ -29,6 +29,11 @@ for d in sorted(glob.glob('/verif/seeded/*/')):
     meta['confirmed_here']=meta.get('confirmed_here') or ("re-run in the sub-agent's scratch worktree by tools/verify_seeded.sh: patch applies on a clean checkout; "
         "repository suite (nextest, 8 threads) with the change applied: 64 passed + the always-failing panicking_panics_with_future_queues (known-flaky tests ignored); "
         "demo run twice with the change (failed both times) and twice without (passed both times)")
+    if meta.get('neutralised_by'):
+        meta['framework']={'caught_by_own_property_check':'not applicable any more','note':meta['neutralised_by']}
+        json.dump(meta,open(mp,'w'),indent=1)
+        rows.append((sid,meta.get('title','')[:110],'neutralised by a repair (no longer breaks the property)',None,meta['neutralised_by'][:90]))
+        continue
     if meta.get('framework_manual'):
         fm=meta['framework_manual']
         meta['framework']=fm
@@ -43,6 +48,7 @@ with open('/verif/seeded/RESULTS.md','w') as f:
             "after how many generated cases, and the first violation line. Regenerate with tools/run_seeded.sh + tools/seeded_report.py.\n\n")
     f.write("| id | change | caught by own check | cases | first violation |\n|---|---|---|---|---|\n")
     for r in rows: f.write("| %s | %s | %s | %s | %s |\n"%r)
-    n=len(rows); c=sum(1 for r in rows if r[2]!='no')
+    live=[r for r in rows if not str(r[2]).startswith('neutralised')]
+    n=len(live); c=sum(1 for r in live if r[2]!='no')
     f.write("\n%d of %d caught (quick: %d).\n"%(c,n,sum(1 for r in rows if str(r[2]).startswith('quick'))))
 print(open('/verif/seeded/RESULTS.md').read()[-300:])
